@@ -82,7 +82,7 @@ CHECKS.update({
                     "the list of live items; 'push of a non-greater key always panics' via an unreachable-marker harness; the assumed cleanup_front contract "
                     "on <= 7 / 10 items. One OPEN known finding (F6, whole-item ordering with tied key fields) is confined to its own harness.",
             "note": "BOUNDED: <= 4 physical items quick / 5 thorough; induction over operations is a meta-argument; defects needing >= 5 physical items are beyond the quick Kani bound and are reached by the thorough tier (5) and by Engine C, the native bounded cross-check (every subset of removals over <= 10 / 13 keys, all observations after every step; bounded, not proof)"},
-    "C17": {"engine": "kani+verus", "design_ref": "DESIGN.md 5 (C17), 10.1",
+    "C17": {"engine": "verus+kani+native", "design_ref": "DESIGN.md 5 (C17), 10.1",
             "technique": "Verus contract on ByteArena::read_n_impl against a ghost reader script (unbounded) + Verus contracts on Encoder/Decoder read_n / encode_read / decode_read; Kani bounded harness over all reader scripts as second engine with counterexample playback",
             "text": "Verus proves ByteArena::read_n_impl for EVERY reader script, count and attempt limit against the assumed contract of Read::read "
                     "(loop invariant: outcome-so-far + simulation of the rest of the script == simulation from the start): at most max_attempts calls, "
@@ -90,7 +90,7 @@ CHECKS.update({
                     "error pending, Err(last error) otherwise. " + _KB + "read_n_impl under every script of <= 4 steps over {deliver k, Interrupted, EOF, hard error}. The codec wrappers are verified by "
                     "Verus (unbounded) against the assumed ByteArena::read_n contract: failed read => output untouched; Ok(n) => exactly the n bytes read are "
                     "encoded / decoded.",
-            "note": "level stays model_checking because the unsafe alloc/release wrapper ByteArena::read_n around read_n_impl and the arena states are assumed (Kani out of memory on the arena, unsafe outside Verus); Read::read, <[u8]>::fill, io::Error::kind, Option::replace under assumed contracts"},
+            "note": "Engine C (native, bounded) runs the WHOLE of ByteArena::read_n, wrapper included, on real arenas over every script of <= 4 steps x 12 counts (0..70000) x 5 attempt limits. level stays model_checking because the unsafe alloc/release wrapper ByteArena::read_n around read_n_impl and the arena states are assumed in the proof and only bounded-checked (Kani out of memory on the arena, unsafe outside Verus); Read::read, <[u8]>::fill, io::Error::kind, Option::replace under assumed contracts"},
     "C18": {"engine": "kani", "design_ref": "DESIGN.md 10.9",
             "technique": "Kani harnesses from every state a suspended writer can leave (symbolic sequence, arbitrary non-stable slot, lock held/free); unwind 2 with unwinding assertion",
             "text": "snapshot() completes in one pass of its loop, returns the published pair, never panics and never touches the lock, from EVERY state of "
